@@ -188,12 +188,18 @@ func Positions() []Position {
 		{"scalararg", "clamp_min(n, scalar(%s))", "vector", "vector"},
 		{"subquery", "max_over_time((%s)[3m:1m])", "vector", "vector"},
 		{"histarg", "histogram_quantile(0.5, %s)", "vector", "vector"},
+		{"fnarg/first-of-2", "clamp_min(%s, 5)", "vector", "vector"},
+		{"fnarg/first-of-3", "clamp(%s, 0, 10)", "vector", "vector"},
+		{"fnarg/first,scalar-last", "clamp_max(%s, scalar(n))", "vector", "vector"},
+		{"histparam", "histogram_quantile(scalar(%s), h_bucket)", "vector", "vector"},
 
 		{"top", "%s", "scalar", "scalar"},
 		{"vector()", "vector(%s)", "scalar", "vector"},
 		{"binscalar/rhs", "n + (%s)", "scalar", "vector"},
 		{"binscalar/lhs", "(%s) < n", "scalar", "vector"},
 		{"fnscalararg", "clamp_max(n, %s)", "scalar", "vector"},
+		{"fnscalararg/middle", "clamp(n, %s, 10)", "scalar", "vector"},
+		{"histparam", "histogram_quantile(%s, h_bucket)", "scalar", "vector"},
 		{"aggparam", "bottomk(%s, n)", "scalar", "vector"},
 		{"quantileparam", "quantile(%s, n)", "scalar", "vector"},
 		{"unary", "-(%s)", "scalar", "scalar"},
